@@ -75,6 +75,9 @@ def big_value(r, kind, size):
         a.append(b)
         a.append(a)
         return a
+    if kind == 'wide_exception':
+        # the arguments of an exception are a collection like any other
+        return ValueError(*['arg%d' % i for i in range(size)])
     if kind == 'obj_tree':
         def tree(d):
             if d == 0:
@@ -85,7 +88,7 @@ def big_value(r, kind, size):
 
 
 KINDS = ['wide_list', 'wide_tuple', 'wide_set', 'wide_dict', 'list_of_lists', 'deep_list', 'deep_dict', 'deep_obj',
-         'long_str', 'long_str_obj', 'cycle', 'obj_tree']
+         'long_str', 'long_str_obj', 'cycle', 'obj_tree', 'wide_exception']
 SMALL = [lambda r: r.randrange(100), lambda r: 'small-%d' % r.randrange(100), lambda r: [1, 2], lambda r: None,
          lambda r: {'k': 'v'}, lambda r: graphs.Plain(a=1)]
 
@@ -256,6 +259,9 @@ def measure(snap, top, names, lim, probs, st):
             p = snapcheck.value_problem(o, v, lim['max_str'])
             if p:
                 probs.add('fidelity:value', 'entry %s: %s' % (vid, p))
+            if isinstance(o, BaseException) and len(v.children) > lim['max_coll']:
+                probs.add('bounds:collection-size', 'entry %s (%s with %d arguments) has %d children, maximum %d' % (
+                    vid, v.type, len(o.args), len(v.children), lim['max_coll']))
             if type(o) in snapcheck.BUILTIN_SEQ:
                 if len(v.children) > lim['max_coll']:
                     probs.add('bounds:collection-size', 'entry %s (%s of %d) has %d children, maximum %d' % (
